@@ -216,7 +216,7 @@ Lemma slice_list chunks start len :
               /\ concat out = firstn len (skipn start (concat chunks))
               /\ Forall (fun c => c <> []) out.
 Proof.
-  intros Hle Hlen. unfold range_wrapper. rewrite end_of_spec, initial_rl_spec.
+  intros Hle Hlen. unfold range_wrapper, rw_list. rewrite end_of_spec, initial_rl_spec.
   destruct (first_skip_spec (fun _ => []) start chunks 0 None) as (pre & c & post & Hit & [Hlo Hhi] & Hfs); try lia.
   cbn [Nat.add] in Hlo, Hhi, Hfs.
   set (R := length (concat pre) + length c) in *.
@@ -249,7 +249,7 @@ Lemma slice_file d bs start len :
               /\ Forall (fun c => c <> []) out.
 Proof.
   intros Hle Hlen. destruct bs as [|bs']; [cbn in Hle; lia|].
-  rewrite blocks_concat in Hle by lia. unfold range_wrapper. rewrite end_of_spec, initial_rl_spec.
+  rewrite blocks_concat in Hle by lia. unfold range_wrapper, rw_file. rewrite end_of_spec, initial_rl_spec.
   destruct (crl_specs start) as (Hcs & _ & _ & Hsp). rewrite Hsp.
   set (sk := blocks (S bs') (skipn start d)).
   assert (Hsk : concat sk = skipn start d) by (apply blocks_concat; lia).
@@ -275,17 +275,28 @@ Proof.
     rewrite Hc. replace (start + len - start) with len by lia. rewrite <- Hsk. reflexivity.
 Qed.
 
+(* FileWrapper.seekable (regenerated): the file's own seekable() when it has one, else whether it has seek *)
+Lemma file_wrapper_seekable_spec hs fs hk :
+  file_wrapper_seekable hs fs hk = Ok (if hs then fs else hk).
+Proof. destruct hs, fs, hk; reflexivity. Qed.
+
 Theorem range_wrapper_slice b start len :
   start + len <= length (concat (full_body b)) -> 0 < len ->
   exists out, range_wrapper b start len = Ok out
               /\ concat out = firstn len (skipn start (concat (full_body b)))
               /\ Forall (fun c => c <> []) out.
 Proof.
-  destruct b as [chunks|d bs]; cbn [full_body]; intros H1 H2.
+  destruct b as [chunks|d bs|d bs hs fs hk]; cbn [full_body]; intros H1 H2.
   - apply slice_list; assumption.
   - destruct (slice_file d bs start len H1 H2) as (out & Ho & Hc & Hall).
     exists out. split; [exact Ho|]. split; [|exact Hall].
     destruct bs; [cbn in H1; lia|]. rewrite blocks_concat by lia. exact Hc.
+  - cbn [range_wrapper]. rewrite file_wrapper_seekable_spec. cbn [bind].
+    destruct (if hs then fs else hk).
+    + destruct (slice_file d bs start len H1 H2) as (out & Ho & Hc & Hall).
+      exists out. split; [exact Ho|]. split; [|exact Hall].
+      destruct bs; [cbn in H1; lia|]. rewrite blocks_concat by lia. exact Hc.
+    + apply (slice_list (blocks bs d)); assumption.
 Qed.
 
 (* the defect that was repaired in /repo (commit 40e41c0): with the old __next__, which stopped at the first
